@@ -82,6 +82,8 @@ def e3(ctx):
                 # the pairs the property names: finalizing renames and renames of valid files to non-matching names
                 pick += [("moved", False, rng.choice(tmp_ids), rng.choice(valid_ids)) for _ in range(6)]
                 pick += [("moved", False, rng.choice(valid_ids), rng.choice(tmp_ids)) for _ in range(6)]
+                # renames between two finalized names (of different times: one end may lie outside the window)
+                pick += [("moved", False, a, b) for a, b in (rng.sample(valid_ids, 2) for _ in range(10))]
                 moves = pick
                 dirs = dirs[:4]
             for (k, isdir, s, d) in cases + dirs + moves:
